@@ -546,7 +546,24 @@ func ruleJSONLeaves(r *Run) {
 		}
 		bad := false
 		n := 0
-		for _, a := range fn.AnonFuncs {
+		// the element parses: recursive calls made from the function's literals or from the helpers
+		// it is split into (anything in its group but its own top-level body)
+		var hosts []*ssa.Function
+		for _, g := range funcGroup(fn) {
+			if g != fn {
+				hosts = append(hosts, g)
+				for _, a2 := range g.AnonFuncs {
+					hosts = append(hosts, a2)
+					hosts = append(hosts, a2.AnonFuncs...)
+				}
+			}
+		}
+		seenHost := map[*ssa.Function]bool{}
+		for _, a := range hosts {
+			if seenHost[a] {
+				continue
+			}
+			seenHost[a] = true
 			for _, c := range callsIn(a) {
 				call, ok := c.(*ssa.Call)
 				if !ok || !callIs(call, modPath+"/"+enginePkg, "parseValue") {
@@ -607,9 +624,9 @@ func ruleJSONLeaves(r *Run) {
 				}
 			}
 		}
-		if n < 2 {
+		if n < 1 {
 			bad = true
-			o.Fail(r.pos(fn.Pos()), "found %d recursive element parses, floor 2 (array, object)", n)
+			o.Fail(r.pos(fn.Pos()), "found %d recursive element parses, floor 1", n)
 		}
 		if !bad {
 			o.OK("%d recursive parses, elements used only under ok", n).At(r.pos(fn.Pos()))
